@@ -83,15 +83,19 @@ class Diff(object):
                 continue
             if A.size == 0:
                 continue
-            scale = max(1.0, float(np.abs(A).max()))
+            if sg["outk"][min(k, len(sg["outk"]) - 1)] == "angle" and name.startswith("find_omega"):
+                # solutions are angles: +pi and -pi are the same solution
+                A, Bm = np.concatenate([np.cos(A), np.sin(A)]), np.concatenate([np.cos(Bm), np.sin(Bm)])
+            scale = max(1.0, float(np.nanmax(np.abs(A)))) if np.any(np.isfinite(A)) else 1.0
             if not np.all(np.isfinite(A) == np.isfinite(Bm)) or float(np.nanmax(np.abs(A - Bm))) > tol * scale:
                 if name == "ubi_to_u_and_eps" and k == 1:
                     I6 = np.array([1, 0, 0, 1, 0, 1.0])
                     if np.abs(A - (TWO_PI * (Bm + I6) - I6)).max() < 1e-9 * 10:
                         self.known += 1
                         continue
-                self.bad.append("%s: tools and laue differ by %.3g (output %d of kind %s, weight %d) %s" %
-                                (name, float(np.nanmax(np.abs(A - Bm))), k + 1, sg["outk"][k] if k < len(sg["outk"]) else "?", w, note))
+                self.bad.append("%s: tools and laue differ by %.3g (output %d of kind %s, weight %d): %s vs %s %s" %
+                                (name, float(np.nanmax(np.abs(A - Bm))), k + 1, sg["outk"][k] if k < len(sg["outk"]) else "?", w,
+                                 np.array2string(A.ravel()[:6], precision=12), np.array2string(Bm.ravel()[:6], precision=12), note))
         return rt, rl
 
 
